@@ -5,6 +5,22 @@
 #include "case.hpp"
 #include "registry.hpp"
 
+#include <string>
+
+// Binary IO performed during static initialisation, by an object that is defined BEFORE fileio.hpp is
+// included and is therefore initialised before that header's own namespace-scope objects.  "The same
+// bytes in any run" includes a run that writes a file from the constructor of a global object.
+std::string verifEarlyIOProblem();
+#if BN_GROUP == 1
+namespace {
+struct EarlyIO {
+    std::string problem;
+    EarlyIO();
+};
+EarlyIO earlyIO;
+} // namespace
+#endif
+
 #include "BaseGraph/fileio.hpp"
 
 #include <algorithm>
@@ -569,7 +585,12 @@ void run(const Case &c, verif_result *out) {
             r = badPath<G>(observer);
             tags.insert("unopenable_paths");
         } else {
-            r = roundTrip<G>(c, observer, tags);
+            r = verifEarlyIOProblem();
+            if (!r.empty())
+                observer = "static-initialisation-io";
+            tags.insert("static_init_io_checked");
+            if (r.empty())
+                r = roundTrip<G>(c, observer, tags);
             if (r.empty())
                 r = swapCheck<L>(c.geti("n", 0) + (long long)c.ops.size(), observer);
         }
@@ -592,6 +613,31 @@ void run(const Case &c, verif_result *out) {
 }
 
 } // namespace
+
+#if BN_GROUP == 1
+namespace {
+EarlyIO::EarlyIO() {
+    try {
+        FileGuard f{scratchFile(".early")};
+        LabeledDirectedGraph<int32_t> g(3);
+        g.addEdge(1, 2, 0x01020304);
+        io::writeBinaryEdgeList<LabeledDirectedGraph, int32_t>(g, f.p);
+        std::string bytes = readAll(f.p);
+        const unsigned char want[12] = {1, 0, 0, 0, 2, 0, 0, 0, 4, 3, 2, 1};
+        if (bytes != std::string(reinterpret_cast<const char *>(want), 12)) {
+            problem = "a file written during static initialisation does not hold the little-endian record of (1,2,0x01020304)";
+            return;
+        }
+        LabeledDirectedGraph<int32_t> h = io::loadBinaryEdgeList<LabeledDirectedGraph, int32_t>(f.p);
+        if (!(h == g))
+            problem = "a file written and read back during static initialisation does not give the same graph";
+    } catch (const std::exception &ex) {
+        problem = std::string("binary IO during static initialisation threw: ") + ex.what();
+    }
+}
+} // namespace
+std::string verifEarlyIOProblem() { return earlyIO.problem; }
+#endif
 
 #define REG2(name, T) VERIF_REGISTER(DL_##name, LabeledDirectedGraph<T>) VERIF_REGISTER(UL_##name, LabeledUndirectedGraph<T>)
 #if BN_GROUP == 0
